@@ -23,7 +23,7 @@ class NotifierDelay:
             raise ValueError("You probably don't want to delay less than 1ms!")
 
         # Convert the delay period to microseconds, as FPGA timestamps are microseconds
-        self.delay_period = int(delay_period * 1e6)
+        self.delay_period = round(delay_period * 1e6)
         self._notifier = hal.initializeNotifier()[0]
         self._expiry_time = wpilib.RobotController.getFPGATime() + self.delay_period
         self._update_alarm(self._notifier)
